@@ -148,7 +148,11 @@ def rewrite(t, fn):
     """rebuild a term bottom-up; fn(node) -> replacement or None"""
     k = t[0]
     if k in ("field",):
-        n = (k, rewrite(t[1], fn), t[2])
+        b = rewrite(t[1], fn)
+        if b[0] == "tup" and str(t[2]).isdigit() and int(t[2]) < len(b[1]):
+            n = b[1][int(t[2])]          # (a, b).0  ==  a
+        else:
+            n = (k, b, t[2])
     elif k == "proj":
         n = (k, rewrite(t[1], fn), t[2], t[3])
     elif k in ("elem", "try", "rest", "ret", "break", "repeat"):
@@ -212,6 +216,7 @@ class Norm:
         self._stack = _stack + (body.get("path"),)
         self._cur_depth = 0
         self.call_depth = {}
+        self._fn_block = strip(body["body"]) if isinstance(body.get("body"), dict) else None
         self.def_ctx = {}    # local id -> (closure depth, guards) at its `let`
         self.defs = {}       # local id -> binding record
         self.mut = set()     # ids declared `mut` or by-ref-mut
@@ -581,6 +586,13 @@ class Norm:
         return ("match", scr, arms)
 
     def _iflet(self, pat, scr, then, els):
+        if scr[0] == "call" and scr[1] == "Iterator::find" and len(scr[2]) == 2 and scr[2][1][0] == "closure" and scr[2][1][2] == 1 \
+                and pat.startswith(("v1::Some(", "Option::Some(")):
+            base, el = _elem_of(scr[2][0])
+            d = scr[2][1][1]
+            pred = rewrite(scr[2][1][3], lambda n: el if n[0] == "cparam" and n[1] == d and n[2] == 0 else None)
+            hit = ("proj", scr, pat.split("(")[0], "0")
+            return ("call", "search", [base, pred, rewrite(then, lambda n: el if n == hit else None), els])
         # if let Some(x) = X { Ok(x) } else { Err(e) }   ==   X.ok_or(e)
         if pat in ("v1::Some($)", "Option::Some($)") and then[0] == "call" and then[1] == "Ok" and len(then[2]) == 1 \
                 and _show(then[2][0]) == _show(("proj", scr, pat.split("(")[0], "0")) and els[0] == "call" and els[1] == "Err" and len(els[2]) == 1:
@@ -931,8 +943,17 @@ class Norm:
                             tail = ("opaque", "diverge")
             if tail == ("lit", "()") and e.get("ty") == "!":
                 tail = ("opaque", "diverge")
+            if not early and len(effs) == 1 and effs[0][0] == "for" and e is self._fn_block:
+                lp = effs[0]
+                if lp[2][0] == "early" and len(lp[2][1]) == 1 and lp[2][1][0][1][0] == "ret" and _is_unit(lp[2][2]):
+                    # for x in it { if c(x) { return r(x) } } tail   ==   match it.find(c) { Some(x) => r(x), None => tail }
+                    base, el = _elem_of(lp[1])
+                    old_el = ("elem", lp[1])
+                    sub = (lambda n: el if n == old_el else None)
+                    return ("call", "search", [base, rewrite(lp[2][1][0][0], sub), rewrite(lp[2][1][0][1][1], sub), tail])
             if effs:
-                tail = ("seq", effs, tail)
+                # `{ f(x); }` is `f(x)` in every context that accepts the unit block
+                tail = effs[0] if len(effs) == 1 and tail == ("lit", "()") and effs[0][0] in ("call", "for", "if", "match", "seq") else ("seq", effs, tail)
             if early:
                 early2 = []
                 for c, v in early:
@@ -1184,6 +1205,15 @@ def pat_repr(p):
     if k == "PGuard":
         return pat_repr(p["p"]) + " if .."
     return str(k)
+
+
+def _elem_of(it):
+    """(underlying iterator, term of one element) with `map` adaptors fused into the element"""
+    if it[0] == "call" and it[1] == "Iterator::map" and len(it[2]) == 2 and it[2][1][0] == "closure" and it[2][1][2] == 1:
+        base, el = _elem_of(it[2][0])
+        d = it[2][1][1]
+        return base, rewrite(it[2][1][3], lambda n: el if n[0] == "cparam" and n[1] == d and n[2] == 0 else None)
+    return it, ("elem", it)
 
 
 def _only_continue(blk):
